@@ -173,7 +173,7 @@ def rule_recursive_registration(repo: Repo, rep: Report, rule: str) -> None:
         if fn is None:
             raise AnalysisError(f"anchor vanished: {fname}")
         if not any(isinstance(n, ast.For) for n in own_nodes(fn.node)):
-            fn = _flc(fn)  # the field loop was moved into a shared helper
+            fn = _flc(fn, depth=1)  # the field loop was moved into a shared helper (one level: the nested-types helper stays a call)
         L = Locals(fn.node)
         loops = [n for n, _ in L.loops_over("dataclasses.fields(ANY_c)") + L.loops_over("fields(ANY_c)") if isinstance(n, ast.For)]
         sub = f"{conv.relpath}:{fname} descends into every field type"
